@@ -236,92 +236,108 @@ def run_case(case):
     import atexit
     import shutil as _sh
     with env.Capture() as cap:
-        if fam == "synth":
-            for _ in range(case["count"]):
-                # lattices bring four-fold junctions, T-junctions and three-cell junctions lying on the outline
-                at = scen.base_tissue(rng, ["vor", "arc", "mob", "vor", "arc", "mob", "lat-square", "lat-brick", "lat-hex"][int(rng.integers(9))],
-                                      ncells=int(rng.integers(8, 50)))
-                if rng.random() < 0.6:
+        try:
+            if fam == "synth":
+                for _ in range(case["count"]):
+                    # lattices bring four-fold junctions, T-junctions and three-cell junctions lying on the outline
+                    at = scen.base_tissue(rng, ["vor", "arc", "mob", "vor", "arc", "mob", "lat-square", "lat-brick", "lat-hex"][int(rng.integers(9))],
+                                          ncells=int(rng.integers(8, 50)))
+                    if rng.random() < 0.6:
+                        at = at.sub(tissue.random_connected_subset(rng, at, int(rng.integers(1, len(at.cells) + 1))))
+                    if rng.random() < 0.3 and len(at.cells) > 8:
+                        ids = sorted(at.cells)
+                        drop = set(int(x) for x in rng.choice(ids, size=max(1, len(ids) // 8), replace=False))
+                        at = at.sub(max(at.components([x for x in ids if x not in drop]), key=len))
+                    if rng.random() < 0.3:
+                        at = at.similarity(shift=complex(*rng.uniform(-30, 10, 2)))      # negative coordinates
+                    r = realise.realise(at, k=(0, 20) if rng.random() < 0.7 else int(rng.integers(0, 4)), rng=rng,
+                                        relabel=bool(rng.integers(2)), shifts=True, flips="random", edge_dirs=True)
+                    ops, sched, nc, nv = _sequence(rng, r.vertices, r.edges, r.cells, mon, hist, "synth")
+                    sigs.append(["synth", len(at.cells), nv, str(ops), sched])
+            elif fam == "se-fixture":
+                from forsys import surface_evolver as se
+                lat = se.SurfaceEvolver(os.path.join(FIX, case["file"]))
+                ops, sched, nc, nv = _sequence(rng, lat.vertices, lat.edges, lat.cells, mon, hist, case["file"])
+                sigs.append(["se-fixture", case["file"], nv, str(ops), sched])
+            elif fam == "se-gen":
+                from forsys import surface_evolver as se
+                from fv.gen import se as gse
+                at = scen.base_tissue(rng, ["vor", "arc"][int(rng.integers(2))], ncells=int(rng.integers(6, 25)))
+                if rng.random() < 0.5:
                     at = at.sub(tissue.random_connected_subset(rng, at, int(rng.integers(1, len(at.cells) + 1))))
-                if rng.random() < 0.3 and len(at.cells) > 8:
-                    ids = sorted(at.cells)
-                    drop = set(int(x) for x in rng.choice(ids, size=max(1, len(ids) // 8), replace=False))
-                    at = at.sub(max(at.components([x for x in ids if x not in drop]), key=len))
-                if rng.random() < 0.3:
-                    at = at.similarity(shift=complex(*rng.uniform(-30, 10, 2)))      # negative coordinates
-                r = realise.realise(at, k=(0, 20) if rng.random() < 0.7 else int(rng.integers(0, 4)), rng=rng,
-                                    relabel=bool(rng.integers(2)), shifts=True, flips="random", edge_dirs=True)
-                ops, sched, nc, nv = _sequence(rng, r.vertices, r.edges, r.cells, mon, hist, "synth")
-                sigs.append(["synth", len(at.cells), nv, str(ops), sched])
-        elif fam == "se-fixture":
-            from forsys import surface_evolver as se
-            lat = se.SurfaceEvolver(os.path.join(FIX, case["file"]))
-            ops, sched, nc, nv = _sequence(rng, lat.vertices, lat.edges, lat.cells, mon, hist, case["file"])
-            sigs.append(["se-fixture", case["file"], nv, str(ops), sched])
-        elif fam == "se-gen":
-            from forsys import surface_evolver as se
-            from fv.gen import se as gse
-            at = scen.base_tissue(rng, ["vor", "arc"][int(rng.integers(2))], ncells=int(rng.integers(6, 25)))
-            if rng.random() < 0.5:
-                at = at.sub(tissue.random_connected_subset(rng, at, int(rng.integers(1, len(at.cells) + 1))))
-            rec = gse.records_from_tissue(rng, at, k=(0, 5), orphans=int(rng.integers(0, 4)))
-            tmpdir = tempfile.mkdtemp(prefix="fv-c09-")
-            atexit.register(_sh.rmtree, tmpdir, True)
-            path = os.path.join(tmpdir, "t.dmp")
-            gse.write_dump(path, rec["V"], rec["Ed"], rec["F"], rec["B"], wrap=int(rng.integers(3, 14)))
-            lat = se.SurfaceEvolver(path)
-            ops, sched, nc, nv = _sequence(rng, lat.vertices, lat.edges, lat.cells, mon, hist, "se-gen")
-            sigs.append(["se-gen", len(at.cells), nv, str(ops), sched])
-        elif fam == "skeleton-fixture":
-            from forsys import skeleton
-            sk = skeleton.Skeleton(os.path.join(FIX, case["file"]), mirror_y=bool(rng.integers(2)))
-            v, e, c = sk.create_lattice()
-            ops, sched, nc, nv = _sequence(rng, v, e, c, mon, hist, case["file"])
-            sigs.append(["skeleton-fixture", case["file"], nv, str(ops), sched])
-        elif fam == "raster":
-            from forsys import skeleton
-            from fv.gen import raster
-            tmpdir = tempfile.mkdtemp(prefix="fv-c09-")
-            atexit.register(_sh.rmtree, tmpdir, True)
-            ring = case["seed"][2] % 3 == 2     # debris: a free closed ring that shares nothing with the tissue
-            img, info = raster.voronoi_image(rng, ncells=int(rng.integers(4, 30)), clean=not case["raw"], ring=ring)
-            hist["raster-with-free-ring"] = hist.get("raster-with-free-ring", 0) + int(ring)
-            path = os.path.join(tmpdir, "t.tif")
-            raster.save(img, path)
-            sk = skeleton.Skeleton(path, mirror_y=bool(rng.integers(2)))
-            v, e, c = sk.create_lattice()
-            ops, sched, nc, nv = _sequence(rng, v, e, c, mon, hist, "raster")
-            sigs.append(["raster", "raw" if case["raw"] else "clean", len(c), nv, str(ops), sched])
-        elif fam == "wkt":
-            from forsys import wkt
-            at = scen.base_tissue(rng, ["vor", "arc"][int(rng.integers(2))], ncells=int(rng.integers(6, 30)))
-            if rng.random() < 0.5:
-                at = at.sub(tissue.random_connected_subset(rng, at, int(rng.integers(1, len(at.cells) + 1))))
-            r = realise.realise(at, k=(0, 5), rng=rng)
-            rows = []
-            for cid, cc in r.cells.items():
-                pts = [(vv.x, vv.y) for vv in cc.vertices]
-                pts.append(pts[0])
-                rows.append("POLYGON ((" + ", ".join(f"{repr(float(x))} {repr(float(y))}" for x, y in pts) + "))")
-            v, e, c = wkt.create_lattice(rows)
-            ops, sched, nc, nv = _sequence(rng, v, e, c, mon, hist, "wkt")
-            sigs.append(["wkt", len(at.cells), nv, str(ops), sched])
-        elif fam == "tess":
-            from forsys import tessellation
-            n = int(rng.integers(8, 60))
-            pts = rng.uniform(0, 30, (n, 2))
-            centres = [tuple(p) for p in pts]
-            if rng.random() < 0.5:
-                centres = centres + tessellation.add_voronoi_centers(centres)
-            try:
-                elems = tessellation.create_lattice_elements(centres, max_distance=float(rng.uniform(15, 80)))
-            except FloatingPointError:
-                hist["tess-vertical-ridge"] = 1       # C19's subject (division by a zero x-extent)
-                elems = None
-            if elems is not None and len(elems[2]) > 0:
-                v, e, c = tessellation.create_lattice(*elems)
-                ops, sched, nc, nv = _sequence(rng, v, e, c, mon, hist, "tess")
-                sigs.append(["tess", len(c), nv, str(ops), sched])
+                rec = gse.records_from_tissue(rng, at, k=(0, 5), orphans=int(rng.integers(0, 4)))
+                tmpdir = tempfile.mkdtemp(prefix="fv-c09-")
+                atexit.register(_sh.rmtree, tmpdir, True)
+                path = os.path.join(tmpdir, "t.dmp")
+                gse.write_dump(path, rec["V"], rec["Ed"], rec["F"], rec["B"], wrap=int(rng.integers(3, 14)))
+                lat = se.SurfaceEvolver(path)
+                ops, sched, nc, nv = _sequence(rng, lat.vertices, lat.edges, lat.cells, mon, hist, "se-gen")
+                sigs.append(["se-gen", len(at.cells), nv, str(ops), sched])
+            elif fam == "skeleton-fixture":
+                from forsys import skeleton
+                sk = skeleton.Skeleton(os.path.join(FIX, case["file"]), mirror_y=bool(rng.integers(2)))
+                v, e, c = sk.create_lattice()
+                ops, sched, nc, nv = _sequence(rng, v, e, c, mon, hist, case["file"])
+                sigs.append(["skeleton-fixture", case["file"], nv, str(ops), sched])
+            elif fam == "raster":
+                from forsys import skeleton
+                from fv.gen import raster
+                tmpdir = tempfile.mkdtemp(prefix="fv-c09-")
+                atexit.register(_sh.rmtree, tmpdir, True)
+                ring = case["seed"][2] % 3 == 2     # debris: a free closed ring that shares nothing with the tissue
+                img, info = raster.voronoi_image(rng, ncells=int(rng.integers(4, 30)), clean=not case["raw"], ring=ring)
+                hist["raster-with-free-ring"] = hist.get("raster-with-free-ring", 0) + int(ring)
+                path = os.path.join(tmpdir, "t.tif")
+                raster.save(img, path)
+                sk = skeleton.Skeleton(path, mirror_y=bool(rng.integers(2)))
+                v, e, c = sk.create_lattice()
+                ops, sched, nc, nv = _sequence(rng, v, e, c, mon, hist, "raster")
+                sigs.append(["raster", "raw" if case["raw"] else "clean", len(c), nv, str(ops), sched])
+            elif fam == "wkt":
+                from forsys import wkt
+                at = scen.base_tissue(rng, ["vor", "arc"][int(rng.integers(2))], ncells=int(rng.integers(6, 30)))
+                if rng.random() < 0.5:
+                    at = at.sub(tissue.random_connected_subset(rng, at, int(rng.integers(1, len(at.cells) + 1))))
+                if case["seed"][2] % 3 == 1:
+                    # stage coordinates: the polygons lie far from the origin compared with the spacing of their points
+                    at = at.similarity(shift=complex(float(10 ** rng.uniform(4, 6)), float(10 ** rng.uniform(4, 6))))
+                    hist["wkt-far-from-origin"] = 1
+                r = realise.realise(at, k=(0, 5), rng=rng)
+                rows = []
+                for cid, cc in r.cells.items():
+                    pts = [(vv.x, vv.y) for vv in cc.vertices]
+                    pts.append(pts[0])
+                    rows.append("POLYGON ((" + ", ".join(f"{repr(float(x))} {repr(float(y))}" for x, y in pts) + "))")
+                v, e, c = wkt.create_lattice(rows)
+                ops, sched, nc, nv = _sequence(rng, v, e, c, mon, hist, "wkt")
+                sigs.append(["wkt", len(at.cells), nv, str(ops), sched])
+            elif fam == "tess":
+                from forsys import tessellation
+                n = int(rng.integers(8, 60))
+                pts = rng.uniform(0, 30, (n, 2))
+                centres = [tuple(p) for p in pts]
+                if rng.random() < 0.5:
+                    centres = centres + tessellation.add_voronoi_centers(centres)
+                try:
+                    elems = tessellation.create_lattice_elements(centres, max_distance=float(rng.uniform(15, 80)))
+                except FloatingPointError:
+                    hist["tess-vertical-ridge"] = 1       # C19's subject (division by a zero x-extent)
+                    elems = None
+                if elems is not None and len(elems[2]) > 0:
+                    v, e, c = tessellation.create_lattice(*elems)
+                    ops, sched, nc, nv = _sequence(rng, v, e, c, mon, hist, "tess")
+                    sigs.append(["tess", len(c), nv, str(ops), sched])
+        except Exception as exc:
+            # a parser / builder of the package that raises on a valid input yields no mesh at all; an error raised by the
+            # harness itself is not the package's (the case then counts as inconclusive)
+            import traceback
+            frames_ = traceback.extract_tb(exc.__traceback__)
+            if frames_ and "/forsys/" in frames_[-1].filename.replace("\\", "/") and "/fv/" not in frames_[-1].filename:
+                mon.fail("construction-raises", "every construction path yields a mesh", exc=repr(exc)[:200], fam=fam,
+                         where=f"{frames_[-1].filename.rsplit('/', 1)[-1]}:{frames_[-1].name}",
+                         tb=traceback.format_exc()[-500:])
+            else:
+                raise
     if tmpdir:
         import shutil
         shutil.rmtree(tmpdir, ignore_errors=True)
